@@ -1,7 +1,7 @@
 """One function per property: builds what it needs from /repo's working tree, runs the engines,
 returns a driver.Result. Bounds per tier are stated here and repeated in the evidence."""
 import driver
-from driver import Result, build_e3, run_sliced
+from driver import Result, build_e3, run_sliced, build_e1, run_e1
 
 TRUST_COMMON = [
     "hooks (cfg ts_rs_verif) add scheduling points / registry access only; with no callback installed they change nothing",
@@ -167,7 +167,69 @@ def fresh_compile_crosscheck(r):
     return {"kind": "sampling (labelled): 3 fresh macro processes", "identical": same, "dump_bytes": len(dumps[0])}
 
 
+def c09(tier, seed):
+    exe = build_e1(("serde-compat",))
+    _, ver = driver.serde_case_rs()
+    r = Result("exploration",
+               "every string over {a,b,B,C,1,_,é,É,ß} of length <= L (quick 6, thorough 7) that syn accepts as an identifier, plus r#<keyword> for every keyword and a few conventional names, x 8 rename rules x {field, variant}: the real Inflection conversion applied to exactly what format_field/format_variant feed it, compared with serde_derive's own RenameRule::apply_to_field/apply_to_variant (its case.rs of the locked version, include!d unmodified); pairs on which serde_derive itself panics are counted as serde-undefined; plus end-to-end derives checking that the name lands in the expansion. distinct = distinct identifiers",
+               "exhaustive enumeration of identifiers x rules against serde_derive's own conversion code, in process")
+    m = run_e1(exe, "inflect", tier)
+    r.absorb(m)
+    r.extra["serde_derive_version"] = ver
+    r.extra["bounds"] = {"identifier_length": 6 if tier == "quick" else 7, "alphabet": "a b B C 1 _ é É ß"}
+    r.assumptions = ["serde_derive/src/internals/case.rs of the version in /repo/Cargo.lock is what serde puts on the wire (it is the code serde_derive runs)",
+                     "syn::parse_str::<Ident> decides what is an identifier"]
+    return r
+
+
+def c10(tier, seed):
+    r = Result("exploration",
+               "10 item templates (struct, enum, tagged enum, adjacent enum, variant, newtype variant, field, variant field, tuple field, newtype payload) x every supported serde key at that position x: (1) #[serde(k)] vs #[ts(k)]; (2) #[ts(k=v1)] + #[serde(k=v2)] in both orders vs #[ts(k=v1)]; (3) 20 unsupported serde entries (bare, valued, nested forms of supported keys) placed before/after/between supported entries, in one list and split over two lists, and pairs of them, vs the list with the unsupported entries deleted; (4) with serde-compat off: any serde list vs none; under the feature sets {serde-compat, serde-compat+no-serde-warnings, none}. Oracle: identical expansion (token string) of the real derive - which implies identical bindings; for `bound`, which only shapes the where clause, the impl bodies are compared. distinct = distinct left-hand items",
+               "exhaustive enumeration of attribute placements, differential comparison of real derive expansions in process")
+    for feats in (("serde-compat",), ("no-serde-warnings", "serde-compat"), ()):
+        exe = build_e1(feats)
+        m = run_e1(exe, "equiv", tier)
+        m["distinct"] = {f"{feats}:{x}" for x in m["distinct"]}
+        r.absorb(m, ("+".join(feats) or "no-features") + ".")
+    r.assumptions = ["identical token strings of the generated impl imply identical bindings (the converse is not needed: a difference is reported)",
+                     "'does not break compilation' is checked here as 'the derive returns Ok whenever the entry-free item does'; rustc's verdict on accepted expansions is C16's business"]
+    return r
+
+
+def c16_e1(tier, r):
+    for feats in (("serde-compat",), ()):
+        exe = build_e1(feats)
+        m = run_e1(exe, "total", tier)
+        m["distinct"] = {f"{feats}:{x}" for x in m["distinct"]}
+        r.absorb(m, ("+".join(feats) or "no-features") + ".")
+
+
+def c16(tier, seed):
+    r = Result("exploration",
+               "items: 7 struct shapes and enums whose first variant has one of 7 shapes (alone, +1, +2 other variants; the empty enum) x generics {none, <T>, <T: Clone>, <'a,T>, <const N>, <T = i32>, <T,U> where} x identifiers {Item, __, _1, é, Ünï, r#type, r#fn} x every subset of size <= k (quick 2, thorough 3) of attribute options at container x first variant x first field (34 container, 14 variant, 19 field options: every key valid at that position, keys that do not exist there, invalid and missing values), spelled #[ts] and #[serde], under {serde-compat, no features}; 30 hand-picked edge items. Oracle: never a panic; outcome class (expands / compile_error) equals an independent table of the documented incompatibilities and shape restrictions for all-valid-value subsets. distinct = distinct (shape, options, spelling)",
+               "exhaustive small-scope enumeration of derive inputs executed in process, outcome compared with an independent validity table")
+    c16_e1(tier, r)
+    r.assumptions = ["proc_macro2/syn behave in the unit-test build (fallback mode) as inside rustc",
+                     "the validity table in e1_macros.rs::expected_outcome transcribes the documented incompatibilities; items with an invalid-value option are only required not to panic"]
+    return r
+
+
+def c15(tier, seed):
+    exe = build_e1(("serde-compat",))
+    r = Result("exploration",
+               "every list of length <= k (quick 2, thorough 3) over 16 doc texts (plain, empty, `*/`, `/*`, `**/*.rs`, `export type Z = `, quotes and backslash, non-ASCII, blank line inside, newline only, 300 characters, block forms with and without leading stars, block with `*/`, `//`, template syntax) as #[doc = ..] attributes: (1) the real parse_docs yields one well-formed JSDoc block: starts with /**, ends with */ + newline, no earlier */, contains every non-empty doc line (modulo escaping of the terminator); (2) at 9 positions (struct, enum, field, second field, variant, variant field, flattened field, tuple field, field of a tagged variant) the real derive with the docs differs from the derive without them only by the DOCS constant and the field's doc prefix, and the block is carried where the property requires it. distinct = distinct doc blocks",
+               "exhaustive enumeration of doc-attribute lists x positions through the real parse_docs and derive, in process")
+    m = run_e1(exe, "docs", tier)
+    r.absorb(m)
+    r.assumptions = ["a JavaScript block comment ends at the first */ after its opener (lexical fact, also confirmed by swc in the exported-file checks)"]
+    return r
+
+
 CHECKS = {
+    "C09": c09,
+    "C10": c10,
+    "C15": c15,
+    "C16": c16,
     "C03": c03,
     "C08": c08,
     "C11": c11,
